@@ -68,6 +68,9 @@ PROBES = {
         "compose-observed",
         "pickled-map-observed",
         "analysis-continued-on-derived-map",
+        "map-through-cfg-node",
+        "composed-with-conditioned-map",
+        "node-cut-map-recomputed",
     ]
 }
 
@@ -144,6 +147,8 @@ def zygote_init():
 
     isa.load_all(ISAS)
     import amoco.cas.mapper  # noqa
+    import amoco.cfg  # noqa
+    import amoco.code  # noqa
 
     repo = os.path.realpath(os.environ.get("AMOSIM_REPO", "/repo"))
     for name, files in SAMPLE_FILES.items():
@@ -210,14 +215,19 @@ def giant_shift(e, state, depth=0):
     return False
 
 
-def observe_map(m, salt):
+def observe_map(m, salt, route=">>"):
     """-> ["ok", {loc: [size, v|None]}] or ["exc", type]"""
     try:
         st0 = state_for(m, salt)
         for l, v in m:
             if giant_shift(v, st0) or (l._is_ptr and giant_shift(l, st0)):
                 return ["skipped", "giant-shift-amount"]
-        r = st0 >> m
+        if route == "eval":
+            r = m.eval(st0)
+        elif route == "use":
+            r = m.use(*[(l, v) for l, v in st0])
+        else:
+            r = st0 >> m
         out = {}
         for l, v in r:
             try:
@@ -496,8 +506,17 @@ class World(object):
                 if blk is None or blk["instrs"] is None or not isinstance(blk["instrs"], list):
                     return None
                 try:
-                    m = mapper(blk["instrs"])
-                    self.maps[op["id"]] = {"key": (blk["isa"], tuple(blk["ins"]), blk["addr"]), "m": m, "born": self.step_no, "blk": blk, "fresh": True}
+                    if op.get("via") == "node":
+                        # the route amoco's own analyses take: cfg.node(block).map (cached on the node)
+                        from amoco import cfg as _cfg, code as _code
+
+                        n = _cfg.node(_code.block(list(blk["instrs"])))
+                        m = n.map
+                        st.hit("probe:map-through-cfg-node")
+                    else:
+                        n = None
+                        m = mapper(blk["instrs"])
+                    self.maps[op["id"]] = {"key": (blk["isa"], tuple(blk["ins"]), blk["addr"]), "m": m, "born": self.step_no, "blk": blk, "fresh": True, "node": n}
                 except Exception as e:
                     self.maps[op["id"]] = {"key": (blk["isa"], tuple(blk["ins"]), blk["addr"]), "m": None, "exc": type(e).__name__, "born": self.step_no, "blk": blk, "fresh": True}
                 st.hit("ops:map")
@@ -511,13 +530,13 @@ class World(object):
                     if mp["m"] is None:
                         obs = ["exc", "map:" + mp.get("exc", "?")]
                     else:
-                        obs = observe_map(mp["m"], s)
+                        obs = observe_map(mp["m"], s, op.get("route", ">>"))
                     obs_all[s] = obs
-                    viol = self.record(mp["key"] + (s,), obs, what, cl)
+                    viol = self.record(mp["key"] + ((s,) if op.get("route", ">>") == ">>" else (op["route"], s)), obs, what, cl)
                     if viol is not None:
                         break
                 mp["fresh"] = False
-                if viol is None and "blk" in mp:
+                if viol is None and "blk" in mp and op.get("route", ">>") == ">>":
                     viol = self.pristine_check(mp["blk"], obs_all, mp["blk"]["fp"])
                 st.hit("ops:eval")
             elif k == "compose":
@@ -525,11 +544,49 @@ class World(object):
                 if a is None or b is None or a["m"] is None or b["m"] is None:
                     return None
                 try:
-                    m = a["m"] >> b["m"]
-                    self.maps[op["id"]] = {"key": ("compose",) + a["key"] + b["key"], "m": m, "born": self.step_no, "fresh": True}
+                    bm = b["m"]
+                    ck = ()
+                    if op.get("cond"):
+                        # the later block is taken under a path condition (what a path explorer
+                        # does with assume()): the earlier map must not inherit it
+                        import amoco.cas.expressions as E
+
+                        regs = {}
+                        for l, v in a["m"]:
+                            for r_ in E.symbols_of(v):
+                                if r_._is_reg and r_.size >= 8:
+                                    regs[str(r_)] = r_
+                        if regs:
+                            r_ = regs[sorted(regs)[op["cond"] % len(regs)]]
+                            bm = bm.assume([r_ < E.cst(0x10, r_.size)])
+                            ck = ("cond", str(r_))
+                            st.hit("probe:composed-with-conditioned-map")
+                    m = a["m"] >> bm
+                    self.maps[op["id"]] = {"key": ("compose",) + ck + a["key"] + b["key"], "m": m, "born": self.step_no, "fresh": True}
                     st.hit("probe:compose-observed")
                 except Exception as e:
                     self.maps[op["id"]] = {"key": ("compose",) + a["key"] + b["key"], "m": None, "exc": type(e).__name__, "born": self.step_no, "fresh": True}
+            elif k == "nodecut":
+                # a node is cut (what cfg.graph does when a later block splits it): the node's
+                # map is recomputed for the shorter block; the map the client got from the
+                # node before stays what it was
+                mp = self.maps.get(op["map"])
+                if mp is None or mp.get("node") is None or mp["m"] is None:
+                    return None
+                n = mp["node"]
+                ins = n.data.instr
+                if len(ins) < 2:
+                    return None
+                kk = 1 + op["k"] % (len(ins) - 1)
+                blk = mp["blk"]
+                try:
+                    n.cut(ins[kk].address)
+                    m2 = n.map
+                    self.maps[op["id"]] = {"key": (blk["isa"], tuple(blk["ins"][:kk]), blk["addr"]), "m": m2, "born": self.step_no, "fresh": True, "node": None}
+                    mp["node"] = None
+                    st.hit("probe:node-cut-map-recomputed")
+                except Exception as e:
+                    self.maps[op["id"]] = {"key": (blk["isa"], tuple(blk["ins"][:kk]), blk["addr"]), "m": None, "exc": type(e).__name__, "born": self.step_no, "fresh": True}
             elif k == "extend":
                 # the analysis goes on from a stored map: a working copy is derived from
                 # it and further instructions are executed on the copy (what an emulator
@@ -771,7 +828,7 @@ class Gen(object):
             return self.pending.pop(0)
         c = r.choice(self.clients)
         ci = self.clients.index(c)
-        kinds = [("new", 3), ("eval_old", 5), ("rebuild", 3), ("remap", 1.5), ("elsewhere", 1), ("compose", 1), ("extend", 2.5), ("str", 1), ("pickle", 0.7), ("exec1", 1.5), ("abort", 0.8), ("mode", 0.3)]
+        kinds = [("new", 3), ("eval_old", 5), ("rebuild", 3), ("remap", 1.5), ("elsewhere", 1), ("compose", 1.6), ("extend", 2.5), ("str", 1), ("pickle", 0.7), ("exec1", 1.5), ("abort", 0.8), ("mode", 0.3)]
         k = weighted(r, kinds)
         if k == "new" or not c["blocks"]:
             if len(c["blocks"]) >= 12:
@@ -780,9 +837,18 @@ class Gen(object):
                 b = self.new_block(r, c)
                 mid = self.newid("m")
                 c["maps"].append(mid)
-                self.pending = [{"op": "map", "id": mid, "block": b["id"], "client": ci}, {"op": "eval", "map": mid, "salts": list(range(SALTS)), "client": ci}]
+                self.pending = [{"op": "map", "id": mid, "block": b["id"], "client": ci, "via": r.choice(["mapper", "mapper", "node"])}, {"op": "eval", "map": mid, "salts": list(range(SALTS)), "client": ci}]
                 return b
         if k == "eval_old" and c["maps"]:
+            x = r.random()
+            if x < 0.12:
+                mid = self.newid("m")
+                src = r.choice(c["maps"])
+                c["maps"].append(mid)
+                self.pending = [{"op": "eval", "map": mid, "salts": list(range(SALTS)), "client": ci}, {"op": "eval", "map": src, "salts": list(range(SALTS)), "client": ci}]
+                return {"op": "nodecut", "id": mid, "map": src, "k": r.randrange(8), "client": ci}
+            if x < 0.3:
+                return {"op": "eval", "map": r.choice(c["maps"]), "salts": [r.randrange(SALTS)], "route": r.choice(["eval", "use"]), "client": ci}
             return {"op": "eval", "map": r.choice(c["maps"]), "salts": list(range(SALTS)), "client": ci}
         if k == "rebuild" and c["blocks"]:
             old = r.choice(c["blocks"])
@@ -818,8 +884,13 @@ class Gen(object):
         if k == "compose" and len(c["maps"]) >= 2:
             mid = self.newid("m")
             c["maps"].append(mid)
+            m1 = r.choice(c["maps"][:-1])
+            op = {"op": "compose", "id": mid, "m1": m1, "m2": r.choice(c["maps"][:-1]), "client": ci}
             self.pending = [{"op": "eval", "map": mid, "salts": [0], "client": ci}]
-            return {"op": "compose", "id": mid, "m1": r.choice(c["maps"][:-1]), "m2": r.choice(c["maps"][:-1]), "client": ci}
+            if r.random() < 0.4:
+                op["cond"] = r.randrange(1, 9)
+                self.pending.append({"op": "eval", "map": m1, "salts": list(range(SALTS)), "client": ci})
+            return op
         if k == "extend" and c["maps"] and c["blocks"]:
             mid = self.newid("m")
             src = r.choice(c["maps"])
